@@ -94,8 +94,15 @@ def run(run):
         batches.append(('widened columns 3 to 4 and 5 bits', [[201129, 1004], [201130, 1004]], (2,)))
         if thorough:
             batches.append(('widened column 3 to 7 bits by 207', [[207001, 1004]], (2,)))
+        # fields of 52..64 bits by value classes (0, 1, 2^(w-2)+1, 2^w-2, missing, table-width all ones), two and three subsets,
+        # every seed: the columns whose range still has a difference width (many subsets of such a field have none)
+        batches.append(('wide columns 52 to 64 bits', [col_template('num', w) for w in (52, 53, 54, 55, 63, 64)], (2, 3)))
         for label, templates, counts in batches:
-            res = fm94.gen_run(wd, 'MC_' + safe(label), templates,
+            if label.startswith('wide'):
+                res = fm94.gen_run(wd, 'MC_' + safe(label), templates, compressions=(True,), subset_counts=counts, slack=1,
+                                   seeds=(0, 1, 2, 3, 4), editions=(4,) if seed() % 2 == 0 else (3,))
+            else:
+                res = fm94.gen_run(wd, 'MC_' + safe(label), templates,
                                compressions=(True,), subset_counts=counts, slack=2, value_mode='all',
                                editions=(4,) if seed() % 2 == 0 else (3,))
             if res.violated:
